@@ -10,7 +10,9 @@
 
 #define C5_N 12
 #define VC_UNASKED (-9)
-extern const void *g_t[C5_N];                    /* tracked argument objects (signature components, key components) */
+typedef unsigned long long c5_id;                /* identity of an object as an INTEGER (object number, offset): a pointer-typed ghost re-assigned by a
+                                                    replaced callee on a second call with another address cuts the path silently (DESIGN P34) */
+extern c5_id g_t[C5_N];                    /* tracked argument objects (signature components, key components) */
 extern int g_val[C5_N];                          /* verdict of g1_is_valid / g2_is_valid / gt_is_valid on object i */
 extern int g_inf[C5_N];                          /* verdict of ep_is_infty / ep2_is_infty on object i */
 extern int g_onc[C5_N];                          /* verdict of ep_on_curve / ep2_on_curve on object i */
@@ -19,17 +21,31 @@ extern int g_cpy[C5_N];                          /* number of times object i was
 extern int g_mulb[C5_N];                         /* number of times object i was the base (or scalar) of a multiplication */
 extern int g_inf_other;                          /* last ep_is_infty verdict on an untracked object (computed point) */
 /* data flow: identity of the operands of the LAST call of each abstract operation */
-extern int g_pair_calls, g_pair_m, g_pair_all2; extern const void *g_pair_r, *g_pair_p, *g_pair_q;
-extern int g_cmp_calls, g_cmp; extern const void *g_cmp_a, *g_cmp_b;
+extern int g_pair_calls, g_pair_m, g_pair_all2; extern c5_id g_pair_r, g_pair_p, g_pair_q;
+extern int g_cmp_calls, g_cmp; extern c5_id g_cmp_a, g_cmp_b;
 extern int g_unity_calls, g_unity_ok;
 extern int g_md_calls, g_read_calls, g_mod_calls, g_mulgen_calls, g_mul_calls, g_add_calls, g_norm_calls;
-extern size_t g_read_len; extern const void *g_read_a, *g_read_bin, *g_md_msg, *g_md_out; extern size_t g_md_len;
-extern const void *g_mod_c, *g_mod_a, *g_mod_m, *g_ord_n;
-extern const void *g_mulgen_r, *g_mulgen_k, *g_mul_r, *g_mul_p, *g_mul_k, *g_add_r, *g_add_p, *g_add_q, *g_norm_r, *g_norm_p;
-extern const void *g_neg_r, *g_gen_r, *g_sub_r, *g_sub_p, *g_sub_q;
+extern size_t g_read_len; extern c5_id g_read_a, g_read_bin, g_md_msg, g_md_out; extern size_t g_md_len;
+extern c5_id g_mod_c, g_mod_a, g_mod_m, g_ord_n;
+extern c5_id g_mulgen_r, g_mulgen_k, g_mul_r, g_mul_p, g_mul_k, g_add_r, g_add_p, g_add_q, g_norm_r, g_norm_p;
+extern c5_id g_neg_r, g_gen_r, g_sub_r, g_sub_p, g_sub_q;
 extern int g_wr_calls; extern size_t g_sz;
+/* CONTENT of point objects (which argument a scratch object currently holds a copy of): up to C5_S destination objects of the abstract point
+   operations are entered into a table on their first write (g_sid: identity, g_src: content tag); every later abstract write replaces the tag.
+   tag = index of the tracked argument it is a copy of | C5_T_GEN the generator | C5_T_NEGGEN its negative | C5_T_NORM result of a normalisation |
+   C5_T_OTHER any other computed point.  g_sovf: the table overflowed or a TRACKED argument was itself overwritten (tags are then unreliable). */
+#define C5_S 4
+#define C5_E 6
+#define C5_T_OTHER (-1)
+#define C5_T_GEN 20
+#define C5_T_NEGGEN 21
+#define C5_T_NORM 30
+extern c5_id g_sid[C5_S]; extern int g_src[C5_S]; extern int g_sovf;
+/* operands (content tags, pre-state of the call) of the n-th product of two pairings, n < C5_E, and the verdict of the unity test(s) on ITS result:
+   1 = tested, every test "== 1" true; 0 = some test false or against another constant; VC_UNASKED = never tested */
+extern int g_eq_p0[C5_E], g_eq_q0[C5_E], g_eq_p1[C5_E], g_eq_q1[C5_E], g_eq_un[C5_E];
 
-#define C5_P(p) ((const void *)(p))
+#define C5_P(p) ((((c5_id)__CPROVER_POINTER_OBJECT(p)) << 40) + (c5_id)__CPROVER_POINTER_OFFSET(p))
 #define C5_REC1(arr, i, p) (arr[i] == (C5_P(p) == g_t[i] ? __CPROVER_return_value : __CPROVER_old(arr[i])))
 #define C5_REC(arr, p) (C5_REC1(arr,0,p) && C5_REC1(arr,1,p) && C5_REC1(arr,2,p) && C5_REC1(arr,3,p) && C5_REC1(arr,4,p) && C5_REC1(arr,5,p) && \
 	C5_REC1(arr,6,p) && C5_REC1(arr,7,p) && C5_REC1(arr,8,p) && C5_REC1(arr,9,p) && C5_REC1(arr,10,p) && C5_REC1(arr,11,p))
@@ -44,20 +60,55 @@ extern int g_wr_calls; extern size_t g_sz;
 #define C5_ALL1(arr, v) (arr[0] == (v) && arr[1] == (v) && arr[2] == (v) && arr[3] == (v) && arr[4] == (v) && arr[5] == (v) && arr[6] == (v) && arr[7] == (v) && \
 	arr[8] == (v) && arr[9] == (v) && arr[10] == (v) && arr[11] == (v))
 #define C5_BOOL(r) ((r) == 0 || (r) == 1)
+#define C5_TRK(p) (C5_P(p) == g_t[0] ? 0 : C5_P(p) == g_t[1] ? 1 : C5_P(p) == g_t[2] ? 2 : C5_P(p) == g_t[3] ? 3 : C5_P(p) == g_t[4] ? 4 : C5_P(p) == g_t[5] ? 5 : C5_P(p) == g_t[6] ? 6 : \
+	C5_P(p) == g_t[7] ? 7 : C5_P(p) == g_t[8] ? 8 : C5_P(p) == g_t[9] ? 9 : C5_P(p) == g_t[10] ? 10 : C5_P(p) == g_t[11] ? 11 : C5_T_OTHER)
+/* content tag of the object p in the PRE-state of the call (ensures clauses only) */
+#define C5_TAG(p) (C5_IS_TRACKED(p) ? C5_TRK(p) : C5_P(p) == __CPROVER_old(g_sid[0]) ? __CPROVER_old(g_src[0]) : C5_P(p) == __CPROVER_old(g_sid[1]) ? __CPROVER_old(g_src[1]) : \
+	C5_P(p) == __CPROVER_old(g_sid[2]) ? __CPROVER_old(g_src[2]) : C5_P(p) == __CPROVER_old(g_sid[3]) ? __CPROVER_old(g_src[3]) : C5_T_OTHER)
+#define C5_HIT(j, r) (__CPROVER_old(g_sid[j]) == C5_P(r))
+#define C5_ANYHIT(r) (C5_HIT(0, r) || C5_HIT(1, r) || C5_HIT(2, r) || C5_HIT(3, r))
+#define C5_FREE0(r) (!C5_ANYHIT(r) && __CPROVER_old(g_sid[0]) == 0)
+#define C5_FREE1(r) (!C5_ANYHIT(r) && __CPROVER_old(g_sid[0]) != 0 && __CPROVER_old(g_sid[1]) == 0)
+#define C5_FREE2(r) (!C5_ANYHIT(r) && __CPROVER_old(g_sid[0]) != 0 && __CPROVER_old(g_sid[1]) != 0 && __CPROVER_old(g_sid[2]) == 0)
+#define C5_FREE3(r) (!C5_ANYHIT(r) && __CPROVER_old(g_sid[0]) != 0 && __CPROVER_old(g_sid[1]) != 0 && __CPROVER_old(g_sid[2]) != 0 && __CPROVER_old(g_sid[3]) == 0)
+#define C5_FULL(r) (!C5_ANYHIT(r) && __CPROVER_old(g_sid[0]) != 0 && __CPROVER_old(g_sid[1]) != 0 && __CPROVER_old(g_sid[2]) != 0 && __CPROVER_old(g_sid[3]) != 0)
+#define C5_PUT1(j, fr, r, T) (g_sid[j] == ((fr) ? C5_P(r) : __CPROVER_old(g_sid[j])) && g_src[j] == ((C5_HIT(j, r) || (fr)) ? (T) : __CPROVER_old(g_src[j])))
+/* the abstract operation wrote the object r: its content tag becomes T */
+#define C5_PUT(r, T) (C5_PUT1(0, C5_FREE0(r), r, T) && C5_PUT1(1, C5_FREE1(r), r, T) && C5_PUT1(2, C5_FREE2(r), r, T) && C5_PUT1(3, C5_FREE3(r), r, T) && \
+	g_sovf == ((__CPROVER_old(g_sovf) != 0 || C5_FULL(r) || C5_IS_TRACKED(r)) ? 1 : 0))
+#define C5_SLOTS __CPROVER_object_whole(g_sid), __CPROVER_object_whole(g_src), g_sovf
+#define C5_EQREC1(n, p, q, m) (g_eq_p0[n] == (__CPROVER_old(g_pair_calls) == (n) ? ((m) == 2 ? C5_TAG((p)[0]) : C5_T_OTHER) : __CPROVER_old(g_eq_p0[n])) && \
+	g_eq_q0[n] == (__CPROVER_old(g_pair_calls) == (n) ? ((m) == 2 ? C5_TAG((q)[0]) : C5_T_OTHER) : __CPROVER_old(g_eq_q0[n])) && \
+	g_eq_p1[n] == (__CPROVER_old(g_pair_calls) == (n) ? ((m) == 2 ? C5_TAG((p)[1]) : C5_T_OTHER) : __CPROVER_old(g_eq_p1[n])) && \
+	g_eq_q1[n] == (__CPROVER_old(g_pair_calls) == (n) ? ((m) == 2 ? C5_TAG((q)[1]) : C5_T_OTHER) : __CPROVER_old(g_eq_q1[n])) && \
+	g_eq_un[n] == (__CPROVER_old(g_pair_calls) == (n) ? VC_UNASKED : __CPROVER_old(g_eq_un[n])))
+#define C5_EQREC(p, q, m) (C5_EQREC1(0, p, q, m) && C5_EQREC1(1, p, q, m) && C5_EQREC1(2, p, q, m) && C5_EQREC1(3, p, q, m) && C5_EQREC1(4, p, q, m) && C5_EQREC1(5, p, q, m))
+#define C5_UNREC1(n, a, b) (g_eq_un[n] == ((g_pair_calls == (n) + 1 && C5_P(a) == g_pair_r) ? \
+	((__CPROVER_return_value == RLC_EQ && (b) == 1 && __CPROVER_old(g_eq_un[n]) != 0) ? 1 : 0) : __CPROVER_old(g_eq_un[n])))
+#define C5_UNREC(a, b) (C5_UNREC1(0, a, b) && C5_UNREC1(1, a, b) && C5_UNREC1(2, a, b) && C5_UNREC1(3, a, b) && C5_UNREC1(4, a, b) && C5_UNREC1(5, a, b))
+#define C5_EQS __CPROVER_object_whole(g_eq_p0), __CPROVER_object_whole(g_eq_q0), __CPROVER_object_whole(g_eq_p1), __CPROVER_object_whole(g_eq_q1), __CPROVER_object_whole(g_eq_un)
+/* "the equation e(P0,Q0) e(P1,Q1) = 1 was tested": some product of exactly two pairings had these operands (as content tags, either order) and its
+   result was tested for unity, verdict true */
+#define C5_EQN(n, P0, Q0, P1, Q1) (g_eq_un[n] == 1 && ((g_eq_p0[n] == (P0) && g_eq_q0[n] == (Q0) && g_eq_p1[n] == (P1) && g_eq_q1[n] == (Q1)) || \
+	(g_eq_p0[n] == (P1) && g_eq_q0[n] == (Q1) && g_eq_p1[n] == (P0) && g_eq_q1[n] == (Q0))))
+#define C5_TESTED(P0, Q0, P1, Q1) (C5_EQN(0, P0, Q0, P1, Q1) || C5_EQN(1, P0, Q0, P1, Q1) || C5_EQN(2, P0, Q0, P1, Q1) || C5_EQN(3, P0, Q0, P1, Q1) || \
+	C5_EQN(4, P0, Q0, P1, Q1) || C5_EQN(5, P0, Q0, P1, Q1))
+#define C5_ALLE(arr, v) (arr[0] == (v) && arr[1] == (v) && arr[2] == (v) && arr[3] == (v) && arr[4] == (v) && arr[5] == (v))
 #define C5_BNW(a) (a)->used, (a)->sign, __CPROVER_object_upto((a)->dp, sizeof((a)->dp))
 #define C5_BN_ANY(a) ((a)->alloc == RLC_BN_SIZE && (a)->used >= 1 && (a)->used <= RLC_BN_SIZE)
 /* initial ghost state: nothing asked, nothing counted */
 #define C5_INIT (C5_ALL1(g_val, VC_UNASKED) && C5_ALL1(g_inf, VC_UNASKED) && C5_ALL1(g_onc, VC_UNASKED) && C5_ALL1(g_sgn, VC_UNASKED) && C5_ALL1(g_zer, VC_UNASKED) && \
 	C5_ALL1(g_cmpn, VC_UNASKED) && C5_ALL1(g_cpy, 0) && C5_ALL1(g_mulb, 0) && g_inf_other == VC_UNASKED && g_pair_calls == 0 && g_pair_all2 == 1 && g_cmp_calls == 0 && g_cmp == VC_UNASKED && \
 	g_unity_calls == 0 && g_unity_ok == 1 && g_md_calls == 0 && g_read_calls == 0 && g_mod_calls == 0 && g_mulgen_calls == 0 && g_mul_calls == 0 && g_add_calls == 0 && \
-	g_norm_calls == 0 && g_wr_calls == 0 && g_read_len == 0 && g_pair_r == NULL && g_pair_p == NULL && g_pair_q == NULL && g_cmp_a == NULL && g_cmp_b == NULL && g_read_a == NULL && \
-	g_read_bin == NULL && g_md_msg == NULL && g_md_out == NULL && g_mod_c == NULL && g_mod_a == NULL && g_mod_m == NULL && g_ord_n == NULL && g_mulgen_r == NULL && g_mulgen_k == NULL && \
-	g_mul_r == NULL && g_mul_p == NULL && g_mul_k == NULL && g_add_r == NULL && g_add_p == NULL && g_add_q == NULL && g_norm_r == NULL && g_norm_p == NULL && g_neg_r == NULL && \
-	g_gen_r == NULL && g_sub_r == NULL && g_sub_p == NULL && g_sub_q == NULL)
+	g_norm_calls == 0 && g_wr_calls == 0 && g_read_len == 0 && g_pair_r == 0 && g_pair_p == 0 && g_pair_q == 0 && g_cmp_a == 0 && g_cmp_b == 0 && g_read_a == 0 && \
+	g_read_bin == 0 && g_md_msg == 0 && g_md_out == 0 && g_mod_c == 0 && g_mod_a == 0 && g_mod_m == 0 && g_ord_n == 0 && g_mulgen_r == 0 && g_mulgen_k == 0 && \
+	g_mul_r == 0 && g_mul_p == 0 && g_mul_k == 0 && g_add_r == 0 && g_add_p == 0 && g_add_q == 0 && g_norm_r == 0 && g_norm_p == 0 && g_neg_r == 0 && \
+	g_gen_r == 0 && g_sub_r == 0 && g_sub_p == 0 && g_sub_q == 0 && g_sid[0] == 0 && g_sid[1] == 0 && g_sid[2] == 0 && g_sid[3] == 0 && g_sovf == 0 && \
+	C5_ALLE(g_eq_p0, VC_UNASKED) && C5_ALLE(g_eq_q0, VC_UNASKED) && C5_ALLE(g_eq_p1, VC_UNASKED) && C5_ALLE(g_eq_q1, VC_UNASKED) && C5_ALLE(g_eq_un, VC_UNASKED))
 #define C5_GHOST __CPROVER_object_whole(g_val), __CPROVER_object_whole(g_inf), __CPROVER_object_whole(g_onc), __CPROVER_object_whole(g_sgn), __CPROVER_object_whole(g_zer), \
 	__CPROVER_object_whole(g_cmpn), __CPROVER_object_whole(g_cpy), __CPROVER_object_whole(g_mulb), g_inf_other, g_pair_calls, g_pair_m, g_pair_all2, g_pair_r, g_pair_p, g_pair_q, g_cmp_calls, g_cmp, g_cmp_a, g_cmp_b, \
 	g_unity_calls, g_unity_ok, g_md_calls, g_read_calls, g_mod_calls, g_mulgen_calls, g_mul_calls, g_add_calls, g_norm_calls, g_read_len, g_read_a, g_read_bin, g_md_msg, g_md_out, g_md_len, \
-	g_mod_c, g_mod_a, g_mod_m, g_ord_n, g_mulgen_r, g_mulgen_k, g_mul_r, g_mul_p, g_mul_k, g_add_r, g_add_p, g_add_q, g_norm_r, g_norm_p, g_neg_r, g_gen_r, g_sub_r, g_sub_p, g_sub_q, g_wr_calls, g_sz, \
+	g_mod_c, g_mod_a, g_mod_m, g_ord_n, g_mulgen_r, g_mulgen_k, g_mul_r, g_mul_p, g_mul_k, g_add_r, g_add_p, g_add_q, g_norm_r, g_norm_p, g_neg_r, g_gen_r, g_sub_r, g_sub_p, g_sub_q, g_wr_calls, g_sz, C5_SLOTS, C5_EQS, \
 	g_ctx.code, g_ctx.last, g_ctx.caught, g_ctx.error, g_ctx.number, g_thrown
 
 #include "vc_spec_push.h"
@@ -99,8 +150,9 @@ void g2_mul_gen_c5(g2_t r, const bn_t k) VC_ASSIGNS(__CPROVER_object_upto(r, siz
 __CPROVER_ensures(g_mulgen_calls == __CPROVER_old(g_mulgen_calls) + 1 && g_mulgen_r == C5_P(r) && g_mulgen_k == C5_P(k));
 void ep_mul_gen_c5(ep_t r, const bn_t k) VC_ASSIGNS(__CPROVER_object_upto(r, sizeof(ep_st)), g_mulgen_calls, g_mulgen_r, g_mulgen_k, __CPROVER_object_whole(g_mulb))
 __CPROVER_ensures(g_mulgen_calls == __CPROVER_old(g_mulgen_calls) + 1 && g_mulgen_r == C5_P(r) && g_mulgen_k == C5_P(k) && C5_CNT(g_mulb, k));
-void g1_mul_c5(g1_t r, const g1_t p, const bn_t k) VC_ASSIGNS(__CPROVER_object_upto(r, sizeof(ep_st)), g_mul_calls, g_mul_r, g_mul_p, g_mul_k, __CPROVER_object_whole(g_mulb))
-__CPROVER_ensures(g_mul_calls == __CPROVER_old(g_mul_calls) + 1 && g_mul_r == C5_P(r) && g_mul_p == C5_P(p) && g_mul_k == C5_P(k) && C5_CNT2(g_mulb, p, k));
+void g1_mul_c5(g1_t r, const g1_t p, const bn_t k) VC_ASSIGNS(C5_SLOTS, __CPROVER_object_upto(r, sizeof(ep_st)), g_mul_calls, g_mul_r, g_mul_p, g_mul_k, __CPROVER_object_whole(g_mulb))
+__CPROVER_ensures(g_mul_calls == __CPROVER_old(g_mul_calls) + 1 && g_mul_r == C5_P(r) && g_mul_p == C5_P(p) && g_mul_k == C5_P(k) && C5_CNT2(g_mulb, p, k))
+__CPROVER_ensures(C5_PUT(r, C5_T_OTHER));
 void g2_mul_c5(g2_t r, const g2_t p, const bn_t k) VC_ASSIGNS(__CPROVER_object_upto(r, sizeof(ep2_st)), g_mul_calls, g_mul_r, g_mul_p, g_mul_k, __CPROVER_object_whole(g_mulb))
 __CPROVER_ensures(g_mul_calls == __CPROVER_old(g_mul_calls) + 1 && g_mul_r == C5_P(r) && g_mul_p == C5_P(p) && g_mul_k == C5_P(k) && C5_CNT2(g_mulb, p, k));
 void ep_mul_lwnaf_c5(ep_t r, const ep_t p, const bn_t k) VC_ASSIGNS(__CPROVER_object_upto(r, sizeof(ep_st)), g_mul_calls, g_mul_r, g_mul_p, g_mul_k, __CPROVER_object_whole(g_mulb))
@@ -108,23 +160,30 @@ __CPROVER_ensures(g_mul_calls == __CPROVER_old(g_mul_calls) + 1 && g_mul_r == C5
 __CPROVER_ensures(C5_CNT2(g_mulb, p, k));
 /* r = [k]p + [m]q */
 void ep_mul_sim_inter_c5(ep_t r, const ep_t p, const bn_t k, const ep_t q, const bn_t m)
-VC_ASSIGNS(__CPROVER_object_upto(r, sizeof(ep_st)), g_mul_calls, g_mul_r, g_mul_p, g_mul_k, __CPROVER_object_whole(g_mulb))
+VC_ASSIGNS(C5_SLOTS, __CPROVER_object_upto(r, sizeof(ep_st)), g_mul_calls, g_mul_r, g_mul_p, g_mul_k, __CPROVER_object_whole(g_mulb))
 __CPROVER_ensures(g_mul_calls == __CPROVER_old(g_mul_calls) + 1 && g_mul_r == C5_P(r) && g_mul_p == C5_P(p) && g_mul_k == C5_P(k))
-__CPROVER_ensures(C5_CNT2(g_mulb, p, q));
-void ep_add_projc_c5(ep_t r, const ep_t p, const ep_t q) VC_ASSIGNS(__CPROVER_object_upto(r, sizeof(ep_st)), g_add_calls, g_add_r, g_add_p, g_add_q)
-__CPROVER_ensures(g_add_calls == __CPROVER_old(g_add_calls) + 1 && g_add_r == C5_P(r) && g_add_p == C5_P(p) && g_add_q == C5_P(q));
+__CPROVER_ensures(C5_CNT2(g_mulb, p, q))
+__CPROVER_ensures(C5_PUT(r, C5_T_OTHER));
+void ep_add_projc_c5(ep_t r, const ep_t p, const ep_t q) VC_ASSIGNS(C5_SLOTS, __CPROVER_object_upto(r, sizeof(ep_st)), g_add_calls, g_add_r, g_add_p, g_add_q)
+__CPROVER_ensures(g_add_calls == __CPROVER_old(g_add_calls) + 1 && g_add_r == C5_P(r) && g_add_p == C5_P(p) && g_add_q == C5_P(q))
+__CPROVER_ensures(C5_PUT(r, C5_T_OTHER));
 void ep2_add_projc_c5(ep2_t r, const ep2_t p, const ep2_t q) VC_ASSIGNS(__CPROVER_object_upto(r, sizeof(ep2_st)), g_add_calls, g_add_r, g_add_p, g_add_q)
 __CPROVER_ensures(g_add_calls == __CPROVER_old(g_add_calls) + 1 && g_add_r == C5_P(r) && g_add_p == C5_P(p) && g_add_q == C5_P(q));
 void ep_sub_c5(ep_t r, const ep_t p, const ep_t q) VC_ASSIGNS(__CPROVER_object_upto(r, sizeof(ep_st)), g_sub_r, g_sub_p, g_sub_q)
 __CPROVER_ensures(g_sub_r == C5_P(r) && g_sub_p == C5_P(p) && g_sub_q == C5_P(q));
-void ep_norm_c5(ep_t r, const ep_t p) VC_ASSIGNS(__CPROVER_object_upto(r, sizeof(ep_st)), g_norm_calls, g_norm_r, g_norm_p)
-__CPROVER_ensures(g_norm_calls == __CPROVER_old(g_norm_calls) + 1 && g_norm_r == C5_P(r) && g_norm_p == C5_P(p));
+void ep_norm_c5(ep_t r, const ep_t p) VC_ASSIGNS(C5_SLOTS, __CPROVER_object_upto(r, sizeof(ep_st)), g_norm_calls, g_norm_r, g_norm_p)
+__CPROVER_ensures(g_norm_calls == __CPROVER_old(g_norm_calls) + 1 && g_norm_r == C5_P(r) && g_norm_p == C5_P(p))
+__CPROVER_ensures(C5_PUT(r, C5_T_NORM));
 void ep2_norm_c5(ep2_t r, const ep2_t p) VC_ASSIGNS(__CPROVER_object_upto(r, sizeof(ep2_st)), g_norm_calls, g_norm_r, g_norm_p)
 __CPROVER_ensures(g_norm_calls == __CPROVER_old(g_norm_calls) + 1 && g_norm_r == C5_P(r) && g_norm_p == C5_P(p));
-void ep_copy_c5(ep_t r, const ep_t p) VC_ASSIGNS(__CPROVER_object_upto(r, sizeof(ep_st)), __CPROVER_object_whole(g_cpy)) __CPROVER_ensures(C5_CNT(g_cpy, p));
-void ep2_copy_c5(ep2_t r, const ep2_t p) VC_ASSIGNS(__CPROVER_object_upto(r, sizeof(ep2_st)), __CPROVER_object_whole(g_cpy)) __CPROVER_ensures(C5_CNT(g_cpy, p));
-void ep2_neg_c5(ep2_t r, const ep2_t p) VC_ASSIGNS(__CPROVER_object_upto(r, sizeof(ep2_st)), g_neg_r) __CPROVER_ensures(g_neg_r == C5_P(r));
-void ep2_curve_get_gen_c5(ep2_t g) VC_ASSIGNS(__CPROVER_object_upto(g, sizeof(ep2_st)), g_gen_r) __CPROVER_ensures(g_gen_r == C5_P(g));
+void ep_copy_c5(ep_t r, const ep_t p) VC_ASSIGNS(C5_SLOTS, __CPROVER_object_upto(r, sizeof(ep_st)), __CPROVER_object_whole(g_cpy)) __CPROVER_ensures(C5_CNT(g_cpy, p))
+__CPROVER_ensures(C5_PUT(r, C5_TAG(p)));
+void ep2_copy_c5(ep2_t r, const ep2_t p) VC_ASSIGNS(C5_SLOTS, __CPROVER_object_upto(r, sizeof(ep2_st)), __CPROVER_object_whole(g_cpy)) __CPROVER_ensures(C5_CNT(g_cpy, p))
+__CPROVER_ensures(C5_PUT(r, C5_TAG(p)));
+void ep2_neg_c5(ep2_t r, const ep2_t p) VC_ASSIGNS(C5_SLOTS, __CPROVER_object_upto(r, sizeof(ep2_st)), g_neg_r) __CPROVER_ensures(g_neg_r == C5_P(r))
+__CPROVER_ensures(C5_PUT(r, (C5_TAG(p) == C5_T_GEN ? C5_T_NEGGEN : C5_T_OTHER)));
+void ep2_curve_get_gen_c5(ep2_t g) VC_ASSIGNS(C5_SLOTS, __CPROVER_object_upto(g, sizeof(ep2_st)), g_gen_r) __CPROVER_ensures(g_gen_r == C5_P(g))
+__CPROVER_ensures(C5_PUT(g, C5_T_GEN));
 /* [k_0]p_0 + ... + [k_{n-1}]p_{n-1}; the arrays are the verifier's key and message arrays */
 void ep2_mul_sim_lot_c5(ep2_t r, const ep2_t p[], const bn_t k[], size_t n)
 VC_ASSIGNS(__CPROVER_object_upto(r, sizeof(ep2_st)), g_mul_calls, g_mul_r, g_mul_p, g_mul_k, g_sz)
@@ -134,16 +193,18 @@ void pp_map_oatep_k12_c5(fp12_t r, const ep_t p, const ep2_t q)
 VC_ASSIGNS(__CPROVER_object_upto(r, sizeof(fp12_t)), g_pair_calls, g_pair_m, g_pair_r, g_pair_p, g_pair_q)
 __CPROVER_ensures(g_pair_calls == __CPROVER_old(g_pair_calls) + 1 && g_pair_m == 1 && g_pair_r == C5_P(r) && g_pair_p == C5_P(p) && g_pair_q == C5_P(q));
 void pp_map_sim_oatep_k12_c5(fp12_t r, const ep_t *p, const ep2_t *q, int m)
-VC_ASSIGNS(__CPROVER_object_upto(r, sizeof(fp12_t)), g_pair_calls, g_pair_m, g_pair_all2, g_pair_r, g_pair_p, g_pair_q)
+VC_ASSIGNS(C5_EQS, __CPROVER_object_upto(r, sizeof(fp12_t)), g_pair_calls, g_pair_m, g_pair_all2, g_pair_r, g_pair_p, g_pair_q)
 __CPROVER_ensures(g_pair_all2 == (__CPROVER_old(g_pair_all2) == 1 && m == 2 ? 1 : 0))      /* every product so far was over exactly two pairs */
-__CPROVER_ensures(g_pair_calls == __CPROVER_old(g_pair_calls) + 1 && g_pair_m == m && g_pair_r == C5_P(r) && g_pair_p == C5_P(p) && g_pair_q == C5_P(q));
+__CPROVER_ensures(g_pair_calls == __CPROVER_old(g_pair_calls) + 1 && g_pair_m == m && g_pair_r == C5_P(r) && g_pair_p == C5_P(p) && g_pair_q == C5_P(q))
+__CPROVER_ensures(C5_EQREC(p, q, m));
 int fp12_cmp_c5(const fp12_t a, const fp12_t b) VC_ASSIGNS(g_cmp_calls, g_cmp, g_cmp_a, g_cmp_b)
 __CPROVER_ensures((__CPROVER_return_value == RLC_EQ || __CPROVER_return_value == RLC_NE) && g_cmp_calls == __CPROVER_old(g_cmp_calls) + 1 && g_cmp == __CPROVER_return_value && \
 	g_cmp_a == C5_P(a) && g_cmp_b == C5_P(b));
 /* unity test of a pairing product: g_unity_ok stays 1 only while every test so far was "== 1", on the result of the latest pairing, one test per pairing */
-int fp12_cmp_dig_c5(const fp12_t a, dig_t b) VC_ASSIGNS(g_unity_calls, g_unity_ok)
+int fp12_cmp_dig_c5(const fp12_t a, dig_t b) VC_ASSIGNS(__CPROVER_object_whole(g_eq_un), g_unity_calls, g_unity_ok)
 __CPROVER_ensures((__CPROVER_return_value == RLC_EQ || __CPROVER_return_value == RLC_NE) && g_unity_calls == __CPROVER_old(g_unity_calls) + 1 && \
-	g_unity_ok == (__CPROVER_old(g_unity_ok) == 1 && __CPROVER_return_value == RLC_EQ && b == 1 && C5_P(a) == g_pair_r && g_unity_calls == g_pair_calls ? 1 : 0));
+	g_unity_ok == (__CPROVER_old(g_unity_ok) == 1 && __CPROVER_return_value == RLC_EQ && b == 1 && C5_P(a) == g_pair_r && g_unity_calls == g_pair_calls ? 1 : 0))
+__CPROVER_ensures(C5_UNREC(a, b));
 
 /* ================================================ the verifiers ================================================================ */
 /* development aid (vacuity of the accepting path): with -DC05X_VACUITY every verifier additionally "ensures" rejection, which must FAIL */
@@ -157,8 +218,8 @@ __CPROVER_ensures((__CPROVER_return_value == RLC_EQ || __CPROVER_return_value ==
 #define C5_WF(i) (g_val[i] == 1 || (g_onc[i] == 1 && g_inf[i] == 0))
 #define C5_BIND(a0, a1, a2, a3, a4, a5, a6, a7, a8, a9, a10, a11) (g_t[0] == C5_P(a0) && g_t[1] == C5_P(a1) && g_t[2] == C5_P(a2) && g_t[3] == C5_P(a3) && g_t[4] == C5_P(a4) && \
 	g_t[5] == C5_P(a5) && g_t[6] == C5_P(a6) && g_t[7] == C5_P(a7) && g_t[8] == C5_P(a8) && g_t[9] == C5_P(a9) && g_t[10] == C5_P(a10) && g_t[11] == C5_P(a11))
-#define C5_BIND2(a0, a1) (g_t[0] == C5_P(a0) && g_t[1] == C5_P(a1) && g_t[2] == NULL && g_t[3] == NULL && g_t[4] == NULL && g_t[5] == NULL && g_t[6] == NULL && g_t[7] == NULL && \
-	g_t[8] == NULL && g_t[9] == NULL && g_t[10] == NULL && g_t[11] == NULL)
+#define C5_BIND2(a0, a1) (g_t[0] == C5_P(a0) && g_t[1] == C5_P(a1) && g_t[2] == 0 && g_t[3] == 0 && g_t[4] == 0 && g_t[5] == 0 && g_t[6] == 0 && g_t[7] == 0 && \
+	g_t[8] == 0 && g_t[9] == 0 && g_t[10] == 0 && g_t[11] == 0)
 
 /* ---- Boneh-Boyen short signature: accept iff e(s, [m]g2 + q) == z, s in G1 \ {O}, q in G2 \ {O} --------------------------------
    tracked: 0 = s (signature, G1), 1 = q (public key, G2) */
@@ -179,7 +240,7 @@ __CPROVER_ensures(__CPROVER_return_value == 1 ==> (g_pair_calls == 1 && g_pair_m
 __CPROVER_ensures(__CPROVER_return_value == 1 ==> (g_cmp_calls == 1 && g_cmp == RLC_EQ && (g_cmp_a == g_pair_r && g_cmp_b == C5_P(z) || g_cmp_b == g_pair_r && g_cmp_a == C5_P(z))))
 /* message handling: hashed exactly once unless pre-hashed, read over its full length, reduced modulo the group order */
 __CPROVER_ensures(__CPROVER_return_value == 1 ==> (g_md_calls == (hash ? 0 : 1) && g_read_calls == 1 && g_read_len == (hash ? len : (size_t)RLC_MD_LEN) && \
-	g_read_bin == (hash ? C5_P(msg) : g_md_out) && (hash || (g_md_msg == C5_P(msg) && g_md_len == len)) && g_mod_calls == 1 && g_mod_a == g_read_a && g_mod_m == g_ord_n && g_ord_n != NULL))
+	g_read_bin == (hash ? C5_P(msg) : g_md_out) && (hash || (g_md_msg == C5_P(msg) && g_md_len == len)) && g_mod_calls == 1 && g_mod_a == g_read_a && g_mod_m == g_ord_n && g_ord_n != 0))
 __CPROVER_ensures(g_ctx.last == __CPROVER_old(g_ctx.last))
 C5_VAC
 ;
@@ -201,7 +262,7 @@ __CPROVER_ensures(__CPROVER_return_value == 1 ==> (g_pair_calls == 1 && g_pair_m
 	g_add_calls == 1 && (g_add_p == g_mulgen_r && g_add_q == C5_P(q) || g_add_q == g_mulgen_r && g_add_p == C5_P(q)) && g_mulgen_calls == 1 && g_mulgen_k == g_mod_c))
 __CPROVER_ensures(__CPROVER_return_value == 1 ==> (g_cmp_calls == 1 && g_cmp == RLC_EQ && (g_cmp_a == g_pair_r && g_cmp_b == C5_P(z) || g_cmp_b == g_pair_r && g_cmp_a == C5_P(z))))
 __CPROVER_ensures(__CPROVER_return_value == 1 ==> (g_md_calls == (hash ? 0 : 1) && g_read_calls == 1 && g_read_len == (hash ? len : (size_t)RLC_MD_LEN) && \
-	g_read_bin == (hash ? C5_P(msg) : g_md_out) && (hash || (g_md_msg == C5_P(msg) && g_md_len == len)) && g_mod_calls == 1 && g_mod_a == g_read_a && g_mod_m == g_ord_n && g_ord_n != NULL))
+	g_read_bin == (hash ? C5_P(msg) : g_md_out) && (hash || (g_md_msg == C5_P(msg) && g_md_len == len)) && g_mod_calls == 1 && g_mod_a == g_read_a && g_mod_m == g_ord_n && g_ord_n != 0))
 __CPROVER_ensures(g_ctx.last == __CPROVER_old(g_ctx.last))
 C5_VAC
 ;
